@@ -4,12 +4,13 @@ seeds with byte mutation, (c) libFuzzer coverage-guided runs, (d) the same input
 import json, os, random, re, struct, subprocess, time
 from concurrent.futures import ThreadPoolExecutor
 from .. import build, util, core, simlib, gen, e2e
-from . import c09 as c09mod, c15 as c15mod, c11 as c11mod
+from . import c09 as c09mod, c15 as c15mod, c11 as c11mod, c13vg
 
 MANIFEST = dict(
     engine="nfuzz", category="exploration",
     technique="runtime monitoring with sanitizers: ASan+UBSan harnesses per parser - bounded-exhaustive token enumeration, structure-aware "
-              "seeds + mutation, libFuzzer coverage-guided fuzzing, replay through the real sanitised binary; hang watchdog per input",
+              "seeds + mutation, libFuzzer coverage-guided fuzzing, replay through the real sanitised binary; hang watchdog per input; "
+              "a sample of the structure-aware corpus replayed through an uninstrumented build under valgrind memcheck (uninitialised reads)",
     text="Targets: manifest (in-memory file set so include/subninja of other files and of the file itself are reachable; every binding a "
          "build evaluates is evaluated), depfile, dyndep file against a fixed graph, .ninja_log (load, recompact, reload), .ninja_deps "
          "(load, GetDeps of every node, append, recompact, reload), /showIncludes output with arbitrary prefix, MAKEFLAGS, "
@@ -41,6 +42,7 @@ def lf_bin():
 def setup():
     sa_bin()
     lf_bin()
+    c13vg.vg_bin()
 
 
 def env_for(target):
@@ -468,6 +470,7 @@ def run(ctx):
     keep = util.scratch("nfuzz-corpus-")
     try:
         kept = replay_corpus(ctx, quick, rng, keep)
+        c13vg.memcheck(ctx, quick, kept, rng)
         libfuzzer(ctx, quick, keep)
         real_binary(ctx, quick, rng, kept)
     finally:
